@@ -169,6 +169,12 @@ def gen_property_cases(db, rng, per_dir, thorough):
                 elif stored_bare:
                     # a constant: input without dimension; amounts are counts
                     add("%s of (%s %s)" % (p["key"], amount_text(a), s["name"]), "forward", s, p, zero_amount=False)
+                    # a constant asked by its key / output name of an amount that CARRIES a unit (the output's own dimension, or another one)
+                    for wdd in ([p["Od"]] if p["Od"] != () else []) + [(("kg", 1),), (("s", 1),), (("mol", 1),)]:
+                        if wdd == ():
+                            continue
+                        nm = rng.choice([p["key"], p["out_name"]])
+                        add("%s of (%s %s %s)" % (nm, amount_text(a if a != 0 else Fraction(1)), unit_expr(wdd), s["name"]), "wrongdim", s, p, zero_amount=False)
                     if p["Od"] != ():
                         res = p["O"] * (a / p["I"])
                         add("%s of (%s %s %s)" % (p["in_name"], amount_text(res), unit_expr(p["Od"]), s["name"]), "inverse", s, p, zero_amount=z)
